@@ -407,7 +407,7 @@ def run_one(ctx, usim, seed, k, acc):
 
 
 def classify(rule, detail, plan):
-    if rule.startswith("C11.deadlock[") or rule.startswith("C11.stuck["):
+    if rule.startswith("C11.deadlock[") or rule.startswith("C11.stuck[") or rule.startswith("C11.idle-forever["):
         m = re.search(r"task (\d+) '[^']*' blocked on event_(?:del|free)", detail)
         if m and re.search(r"blocked on mutex held by task %s " % m.group(1), detail):
             return "C11-cancel-blocks-in-event_del-while-callback-waits-for-queue-mutex"
